@@ -151,6 +151,8 @@ def classify_detector(e, selfname):
 
 def check(ctx):
     repo = ctx.repo
+    from . import generic as _gen
+    _gen.language_traps(ctx, _gen.anchor_functions(repo, "C10"), "the property holds for every input, on every call")
     from . import generic
     generic.lossy_calls(ctx, generic.module_functions(repo, "dataiter.vector"),
                         "replace_na replaces exactly the missing positions")
